@@ -12,14 +12,16 @@
 // priority" in O(log n).  Affordability: after every elementary operation size / top / contains of the touched and of
 // a few sampled keys are checked; contains() of EVERY key of the key range and sanity_check() run after every
 // elementary operation for key ranges <= 600, every 8th for <= 6000, every 64th above, and always after
-// build_heap / update_all / clear / copy / reserve and before the final drain.
+// build_heap / update_all / clear / copy / reserve / a series of edge probes and before the final drain.  Heaps of more
+// than 4096 keys are drained completely in one case out of four, otherwise for a checked prefix (<= 2048 extractions).
+// Arity 1 (a sorted list, O(n) per operation) stores at most ~3000 keys of the (possibly larger) universe.
 #include "../engine/pbt.hpp"
 
 #include <algorithm>
 #include <climits>
 #include <cstdint>
 #include <memory>
-#include <set>
+#include <functional>
 #include <vector>
 
 #include "C13_addressable_scale_impl.hpp"
@@ -61,7 +63,7 @@ std::vector<size_t> level_sizes(unsigned A, size_t limit) {
 
 PBT_PROPERTY(addressable_scale) {
     // ---- selectors (all drawn first) ----
-    const unsigned sc = (unsigned)src.weighted({10, 5, 4, 9, 2, 2});
+    const unsigned sc = (unsigned)src.weighted({10, 5, 4, 9, 2, 1});
     const unsigned A = 1 + (unsigned)src.range(0, 7);
     static const unsigned CKMAP[] = {2, 0, 1};
     const unsigned ck = CKMAP[src.weighted({4, 2, 1})]; // external priority table, less, greater
@@ -71,6 +73,7 @@ PBT_PROPERTY(addressable_scale) {
     const unsigned ord = (unsigned)src.range(0, 2); // initial key order: random, best first, worst first
     const unsigned pr = (unsigned)src.weighted({2, 2, 2});
     Rng rng{src.bits(4) * 0x9E3779B97F4A7C15ull + 1};
+    const unsigned drain_sel = (unsigned)src.range(0, 3); // heaps > 4096: 3 = drain completely, else a prefix of 512*sel + 1..512
     const bool table = ck == 2;
 
     // ---- key type and universe ----
@@ -81,7 +84,11 @@ PBT_PROPERTY(addressable_scale) {
     case 1: kt = 0, U = 255 - (size_t)src.range(1, 12); break;
     case 2: kt = 0, U = (size_t)src.range(1, 40); break;
     case 3: kt = 1 + (unsigned)src.range(0, 2), U = 21 + (size_t)src.range(0, 2979); break;
-    case 4: kt = 1, U = 65535 - (size_t)src.range(0, 12); break;
+    case 4: { // all 65535 keys in about half of the cases, else 1..10 fewer
+        size_t d = (size_t)src.range(0, 19);
+        kt = 1, U = 65535 - (d < 10 ? 0 : d - 9);
+        break;
+    }
     default: kt = 2 + (unsigned)src.boolean(), U = 65536 + (size_t)src.range(0, 4463), mm = 0; break;
     }
     static const Key KMAXV[] = {0xffu, 0xffffu, 0xffffffffu, ~(Key)0};
@@ -99,9 +106,10 @@ PBT_PROPERTY(addressable_scale) {
     for (size_t i = 0; i < U; ++i) kidx[(size_t)ukeys[i]] = (int32_t)i;
     const unsigned heavy_every = KTOP <= 600 ? 1 : KTOP <= 6000 ? 8 : 64;
     const unsigned max_sub = KTOP <= 6000 ? 1200 : 400;
+    const unsigned HEAVY_OP = KTOP <= 6000 ? 8 : 40; // budget units of an operation that costs O(size of the key range)
 
     static const char* const SCL[] = {"sc=u8_all_255_keys", "sc=u8_nearly_all_keys", "sc=u8_small_universe", "sc=medium_21..3000",
-                                      "sc=u16_all_or_nearly_all_65535_keys", "sc=wide_key_universe>65536"};
+                                      "sc=u16_(nearly)_all_65535_keys", "sc=wide_key_universe>65536"};
     static const char* const KL[] = {"key=uint8", "key=uint16", "key=uint32", "key=uint64"};
     static const char* const AL[] = {"", "arity=1", "arity=2", "arity=3", "arity=4", "arity=5", "arity=6", "arity=7", "arity=8"};
     static const char* const CL[] = {"cmp=less", "cmp=greater", "cmp=table"};
@@ -138,37 +146,50 @@ PBT_PROPERTY(addressable_scale) {
     PBT_LOG("DAryAddressableIntHeap<" << (KL[kt] + 4) << "_t, " << A << ", " << (CL[ck] + 4) << "> universe of " << U << " keys ("
                                       << (ML[mm] + 4) << ", largest " << KTOP << ") prio class " << pr << " seed state " << rng.s << "\n");
 
-    // ---- model: present universe indices (O(1) sampling) + set of (priority value, key) ----
+    // ---- model: present universe indices (O(1) sampling) + min-heap of (priority value, key) with lazy deletion ----
     std::vector<uint32_t> plist, alist(U), ppos(U, NP), apos(U);
     for (size_t i = 0; i < U; ++i) alist[i] = (uint32_t)i, apos[i] = (uint32_t)i;
-    std::set<std::pair<int64_t, Key>> pvset;
+    typedef std::pair<int64_t, Key> PVK;
+    std::vector<PVK> lz; // std::push_heap / pop_heap with std::greater: front() is the smallest entry
     auto present = [&](size_t i) { return ppos[i] != NP; };
+    auto lz_push = [&](Key k) {
+        lz.push_back(PVK(pv(k), k));
+        std::push_heap(lz.begin(), lz.end(), std::greater<PVK>());
+    };
+    //! smallest (priority value, key) of the stored keys; an entry is stale if the key was removed or its priority changed
+    //! (every stored key always has one entry with its current priority value)
+    auto lz_min = [&]() -> PVK {
+        while (true) {
+            const PVK e = lz.front();
+            if (present((size_t)kidx[(size_t)e.second]) && pv(e.second) == e.first) return e;
+            std::pop_heap(lz.begin(), lz.end(), std::greater<PVK>());
+            lz.pop_back();
+        }
+    };
     auto m_add = [&](size_t i) {
         uint32_t a = apos[i], last = alist.back();
         alist[a] = last, apos[last] = a, alist.pop_back(), apos[i] = NP;
         ppos[i] = (uint32_t)plist.size(), plist.push_back((uint32_t)i);
-        pvset.insert({pv(ukeys[i]), ukeys[i]});
+        lz_push(ukeys[i]);
     };
     auto m_del = [&](size_t i) {
         uint32_t p = ppos[i], last = plist.back();
         plist[p] = last, ppos[last] = p, plist.pop_back(), ppos[i] = NP;
         apos[i] = (uint32_t)alist.size(), alist.push_back((uint32_t)i);
-        pvset.erase({pv(ukeys[i]), ukeys[i]});
     };
     auto m_clear = [&]() {
-        plist.clear(), alist.resize(U), pvset.clear();
+        plist.clear(), alist.resize(U), lz.clear();
         for (size_t i = 0; i < U; ++i) alist[i] = (uint32_t)i, apos[i] = (uint32_t)i, ppos[i] = NP;
     };
     auto set_prio = [&](Key k, int p) {
         size_t i = (size_t)kidx[(size_t)k];
-        if (present(i)) pvset.erase({pv(k), k});
         prio[(size_t)k] = p;
-        if (present(i)) pvset.insert({pv(k), k});
+        if (present(i)) lz_push(k);
     };
     auto msize = [&]() { return plist.size(); };
     auto uidx = [&](Key k) -> long { return k <= CEND ? (long)kidx[(size_t)k] : -1; };
     auto is_member = [&](Key k) { return uidx(k) >= 0 && present((size_t)uidx(k)); };
-    auto is_min = [&](Key k) { return pv(k) == pvset.begin()->first; };
+    auto is_min = [&](Key k) { return pv(k) == lz_min().first; };
 
     std::vector<Key> beyond;
     for (Key k : {(Key)1000, (Key)0x7fffffffu, (Key)0xfffffffeu, (Key)0xffffffffu, KMAX - 1, KMAX, (Key)70000, (Key)65535, (Key)65536, (Key)255, (Key)256})
@@ -185,8 +206,8 @@ PBT_PROPERTY(addressable_scale) {
             Key t = h.top();
             PBT_CHECK(is_member(t), "C13/addr-top-member", "after " << after << ": top() = " << t << " is not stored (model size " << n << ")");
             PBT_CHECK(is_min(t), "C13/addr-top-min",
-                      "after " << after << ": top() = " << t << " (priority value " << pv(t) << ") is not minimal: key " << pvset.begin()->second
-                               << " has " << pvset.begin()->first << "; size " << n);
+                      "after " << after << ": top() = " << t << " (priority value " << pv(t) << ") is not minimal: key " << lz_min().second
+                               << " has " << lz_min().first << "; size " << n);
         }
         for (Key k : touched)
             PBT_CHECK(h.contains(k) == is_member(k), "C13/addr-contains",
@@ -213,31 +234,33 @@ PBT_PROPERTY(addressable_scale) {
         if (n >= 250) pbt::label("size>=250");
         if (n >= 1000) pbt::label("size>=1000");
         if (n >= 60000) pbt::label("size>=60000");
-        if (n == KMAX) pbt::label("size==max_count_of_key_type");
+        if (n == KMAX) pbt::label("size==key_max");
         if (n >= 2) {
             size_t li = (n - 2) / A, l = A * li + 1;
             if ((n - 1) % A != 0) pbt::label("last_internal_node_partial");
-            if ((Key)(l + A) > KMAX) pbt::label("child_range_end_exceeds_key_type"), wrapzone = true;
+            if ((Key)(l + A) > KMAX) pbt::label("child_range_end>key_max"), wrapzone = true;
         }
     };
 
     // ---- size classes ----
+    // arity 1 is a sorted list (push / pop are O(n)): the number of STORED keys is capped there, the universe is not
+    const size_t NCAP = A == 1 ? std::min<size_t>(U, 3000) : U;
     auto gen_size = [&](unsigned fc) -> size_t {
         switch (fc) {
-        case 0: return U;
-        case 1: return U - std::min<size_t>(U, (size_t)src.range(0, 2 * A + 1));
+        case 0: return NCAP;
+        case 1: return NCAP - std::min<size_t>(NCAP, (size_t)src.range(0, 2 * A + 1));
         case 2: {
-            size_t k = (size_t)src.range(0, (int64_t)(U / A));
+            size_t k = (size_t)src.range(0, (int64_t)(NCAP / A));
             long n = (long)(k * A) + (long)src.range(0, 2) - 1;
-            return (size_t)std::max<long>(0, std::min<long>(n, (long)U));
+            return (size_t)std::max<long>(0, std::min<long>(n, (long)NCAP));
         }
         case 3: {
-            std::vector<size_t> ls = level_sizes(A, U);
+            std::vector<size_t> ls = level_sizes(A, NCAP);
             size_t s = ls[(size_t)src.range(0, 23) % ls.size()];
             long n = (long)s + (long)src.range(0, 2) - 1;
-            return (size_t)std::max<long>(0, std::min<long>(n, (long)U));
+            return (size_t)std::max<long>(0, std::min<long>(n, (long)NCAP));
         }
-        default: return (size_t)src.range(0, (int64_t)std::min<size_t>(U, 8));
+        default: return (size_t)src.range(0, (int64_t)std::min<size_t>(NCAP, 8));
         }
     };
     //! n distinct keys of the universe: random order, best (smallest by the heap's order) first, or worst first
@@ -248,9 +271,31 @@ PBT_PROPERTY(addressable_scale) {
         std::vector<Key> v(n);
         for (size_t i = 0; i < n; ++i) v[i] = ukeys[perm[i]];
         if (order) {
-            std::stable_sort(v.begin(), v.end(), [&](Key a, Key b) { return pv(a) < pv(b); });
-            if (order == 2) std::reverse(v.begin(), v.end());
+            std::vector<std::pair<int64_t, Key>> t(n);
+            for (size_t i = 0; i < n; ++i) t[i] = std::make_pair(pv(v[i]), v[i]);
+            std::sort(t.begin(), t.end()); // keys are distinct: a total order
+            for (size_t i = 0; i < n; ++i) v[i] = t[order == 2 ? n - 1 - i : i].second;
         }
+        return v;
+    };
+    //! n distinct keys arranged as a valid heap array whose layout the harness KNOWS (used only to choose which key to
+    //! operate on, never by the oracle): the keys sorted by the heap's order fill the array level by level, siblings are
+    //! shuffled (build_heap and pushes in array order do not move anything, up to ties); with `steer` the smallest child
+    //! of every node on the path root -> last internal node lies on that path, so that a pop sifts down to exactly the
+    //! last internal node.
+    auto known_layout = [&](size_t n, bool steer) {
+        std::vector<Key> v = gen_keys(n, 1);
+        for (size_t g = 1; g < n; g += A) {
+            size_t e = std::min(n, g + A);
+            for (size_t i = g; i + 1 < e; ++i) std::swap(v[i], v[i + rng.below(e - i)]);
+        }
+        if (steer && n >= 2)
+            for (size_t c = (n - 2) / A; c > 0; c = (c - 1) / A) {
+                size_t g = ((c - 1) / A) * A + 1, e = std::min(n, g + A), mi = g;
+                for (size_t i = g + 1; i < e; ++i)
+                    if (pv(v[i]) < pv(v[mi])) mi = i;
+                std::swap(v[c], v[mi]);
+            }
         return v;
     };
     auto log_keys = [&](const std::vector<Key>& v) {
@@ -270,7 +315,18 @@ PBT_PROPERTY(addressable_scale) {
         if (msize()) pbt::label("build_nonempty"), nt = true;
         h.build(how, v);
         m_clear();
-        for (Key k : v) m_add((size_t)kidx[(size_t)k]);
+        // bulk version of m_add for every key of v
+        plist.resize(v.size()), lz.resize(v.size());
+        for (size_t j = 0; j < v.size(); ++j) {
+            uint32_t i = (uint32_t)kidx[(size_t)v[j]];
+            plist[j] = i, ppos[i] = (uint32_t)j, lz[j] = PVK(pv(v[j]), v[j]);
+        }
+        std::make_heap(lz.begin(), lz.end(), std::greater<PVK>());
+        alist.clear();
+        for (size_t i = 0; i < U; ++i) {
+            if (ppos[i] == NP) apos[i] = (uint32_t)alist.size(), alist.push_back((uint32_t)i);
+            else apos[i] = NP;
+        }
         pbt::label(HL[how]);
     };
     auto do_push = [&](Key k, bool mv) {
@@ -299,7 +355,7 @@ PBT_PROPERTY(addressable_scale) {
     unsigned nops = 0, nsub = 0;
     while (src.more() && nops < 60 && nsub < max_sub) {
         ++nops;
-        unsigned op = (unsigned)src.weighted({6, 5, 5, 3, 3, 2, 2, 2, 1, 1, 1});
+        unsigned op = (unsigned)src.weighted({6, 5, 5, 3, 3, 2, 2, 2, 1, 1, 1, 8});
         unsigned m = 1 + (unsigned)src.range(0, 63);
         switch (op) {
         case 0: { // keep the heap full: the top gets a (mostly) worse priority m times
@@ -419,7 +475,7 @@ PBT_PROPERTY(addressable_scale) {
             unsigned fc = (unsigned)src.weighted({4, 3, 3, 2, 1});
             std::vector<Key> v = gen_keys(gen_size(fc), (unsigned)src.range(0, 2));
             do_build(m % 3, v);
-            nsub += 8;
+            nsub += HEAVY_OP;
             check("build_heap", true);
             break;
         }
@@ -437,7 +493,7 @@ PBT_PROPERTY(addressable_scale) {
             PBT_LOG("update_all()\n");
             h.update_all();
             pbt::label("update_all");
-            nsub += 8;
+            nsub += HEAVY_OP;
             check("update_all", true);
             break;
         }
@@ -446,7 +502,7 @@ PBT_PROPERTY(addressable_scale) {
             h.clear();
             m_clear();
             pbt::label("clear");
-            nsub += 4;
+            nsub += HEAVY_OP / 2;
             check("clear", true);
             break;
         case 9: {
@@ -454,8 +510,75 @@ PBT_PROPERTY(addressable_scale) {
             PBT_LOG("copy/move variant " << how << "\n");
             h.copy_move(how, ukeys[rng.below(U)]);
             pbt::label("copy_move");
-            nsub += 8;
+            nsub += HEAVY_OP;
             check("copy/move", true);
+            break;
+        }
+        case 11: {
+            // edge probes: a heap with known array layout (size class drawn again), then operations on the keys that sit
+            // at the last internal node (1..arity children), its neighbours, the last leaf, the root, a random node
+            pbt::label("edge_probes");
+            unsigned fc = (unsigned)src.weighted({6, 3, 3, 2, 1});
+            const bool steer = src.boolean();
+            const std::vector<Key> lay = known_layout(gen_size(fc), steer);
+            const size_t n = lay.size();
+            if ((m & 3) == 3 && n <= 6000) {
+                if (msize()) {
+                    PBT_LOG("clear()\n");
+                    h.clear();
+                    m_clear();
+                }
+                PBT_LOG("known layout by " << n << " pushes in array order\n");
+                pbt::label("fill_by_push");
+                for (size_t i = 0; i < n; ++i) do_push(lay[i], i & 1);
+            } else do_build(m % 3, lay);
+            nsub += HEAVY_OP;
+            check("known-layout build", true);
+            if (n < 2) break;
+            const size_t li = (n - 2) / A;
+            size_t lo = li; // first node whose children are all leaves
+            while (lo > 0 && A * (A * (lo - 1) + 1) + 1 >= n) --lo;
+            unsigned c = 1 + (unsigned)src.range(0, 7);
+            for (unsigned j = 0; j < c && msize(); ++j, nsub += 4) {
+                unsigned pc = (unsigned)src.weighted({4, 2, 2, 2, 1, 1});
+                unsigned kind = (unsigned)src.weighted({3, 2, 2, 1});
+                if (j == 0 && steer) kind = 2; // the steered path is only known for the first pop
+                size_t p = pc == 0 ? li : pc == 1 ? (li ? li - 1 : 0) : pc == 2 ? lo + rng.below(li - lo + 1) : pc == 3 ? n - 1 : pc == 4 ? 0 : rng.below(n);
+                Key k = lay[p];
+                if (!is_member(k)) continue;
+                static const char* const PL[] = {"probe@last_internal", "probe@last_internal-1", "probe@parents_of_leaves", "probe@last_leaf", "probe@root", "probe@random"};
+                pbt::label(PL[pc]);
+                if (!table && (kind == 0 || kind == 3)) kind = 1;
+                if (kind == 0 || kind == 3) {
+                    int old = prio[(size_t)k], p2;
+                    if (kind == 0) p2 = pr == 2 ? ++clock : INT_MAX - (int)rng.below(1000);
+                    else {
+                        int64_t mn = lz_min().first - 1 - (int64_t)rng.below(3);
+                        p2 = mn < INT_MIN ? INT_MIN : (int)mn;
+                    }
+                    PBT_LOG("prio[" << k << "] " << old << " -> " << p2 << "; update(" << k << ") [array position " << p << " of " << n << "]\n");
+                    if (p2 != old && msize() >= 2) nt = true, pbt::label(p2 < old ? "update_lowered" : "update_raised");
+                    set_prio(k, p2);
+                    h.update(k);
+                } else if (kind == 1) {
+                    PBT_LOG("remove(" << k << ") [array position " << p << " of " << n << "]\n");
+                    h.remove(k);
+                    m_del((size_t)kidx[(size_t)k]);
+                    if (msize() >= 3) nt = true;
+                } else {
+                    Key t = h.top();
+                    PBT_LOG("pop() [top " << t << "]\n");
+                    PBT_CHECK(is_member(t), "C13/addr-top-member", "top() = " << t << " is not stored");
+                    h.pop();
+                    m_del((size_t)kidx[(size_t)t]);
+                    k = t;
+                    if (msize() >= 3) nt = true;
+                    if (steer && j == 0) pbt::label("steered_pop_to_last_internal");
+                }
+                touched.push_back(k);
+                check("edge probe", heavy_every == 1);
+            }
+            check("edge probes", true);
             break;
         }
         default: {
@@ -463,31 +586,43 @@ PBT_PROPERTY(addressable_scale) {
             PBT_LOG("reserve(" << n << ")\n");
             h.reserve(n);
             pbt::label("reserve");
-            nsub += 4;
+            nsub += HEAVY_OP / 2;
             check("reserve", true);
             break;
         }
         }
     }
     check("history", true);
-    if (wrapzone && nt) pbt::label("nontrivial_with_child_range_end_exceeding_key_type");
+    if (wrapzone && nt) pbt::label("nontrivial_and_child_range_end>key_max");
 
     // ---- drain: every extracted key is stored and minimal (=> non-decreasing order, permutation) ----
-    PBT_LOG("drain of " << msize() << " keys\n");
+    // (heaps of more than 4096 keys are drained completely in one case out of four, otherwise a prefix of <= 2048 keys is
+    // drained and checked - the whole heap order and all handles have just been verified by sanity_check())
+    size_t ndrain = msize();
+    if (ndrain > 4096 && drain_sel != 3) ndrain = 512 * drain_sel + 1 + (size_t)rng.below(512), pbt::label("drain_prefix");
+    else if (ndrain > 4096) pbt::label("drain_complete>4096");
+    PBT_LOG("drain of " << ndrain << " of " << msize() << " keys\n");
     bool have_prev = false;
     int64_t prev = 0;
-    while (msize()) {
+    for (; ndrain && msize(); --ndrain) {
         PBT_CHECK(!h.empty(), "C13/addr-size", "heap empty during drain but model still has " << msize() << " keys");
         Key t = h.extract_top();
         PBT_CHECK(is_member(t), "C13/addr-drain-perm", "drain produced " << t << " which is not (any more) in the model; " << msize() << " keys left");
         PBT_CHECK(!have_prev || pv(t) >= prev, "C13/addr-drain-order", "drain produced " << t << " (priority value " << pv(t) << ") after priority value " << prev);
         PBT_CHECK(is_min(t), "C13/addr-drain-order",
-                  "drain produced " << t << " (priority value " << pv(t) << ") but key " << pvset.begin()->second << " with " << pvset.begin()->first
+                  "drain produced " << t << " (priority value " << pv(t) << ") but key " << lz_min().second << " with " << lz_min().first
                                     << " is still stored; " << msize() << " keys left");
         prev = pv(t), have_prev = true;
         m_del((size_t)kidx[(size_t)t]);
         PBT_CHECK(!h.contains(t), "C13/addr-contains", "contains(" << t << ") still true after it was extracted");
         PBT_CHECK(h.size() == msize(), "C13/addr-size", "drain: size() " << h.size() << " but model has " << msize());
+    }
+    if (msize()) {
+        check("partial drain", false);
+        PBT_LOG("clear()\n");
+        h.clear();
+        m_clear();
+        check("clear", false);
     }
     PBT_CHECK(h.empty() && h.size() == 0, "C13/addr-size", "heap not empty after draining the model: size " << h.size());
     if (nt) pbt::nontrivial();
